@@ -51,6 +51,10 @@ CFGS = {
     "default": {"elements": DEFAULT_ELEMENTS, "pseudo": DEFAULT_PSEUDO, "repl": {}, "surface": "#", "grain": "GRAIN"},
     "default-G": {"elements": DEFAULT_ELEMENTS, "pseudo": DEFAULT_PSEUDO, "repl": {}, "surface": "G", "grain": "GRAIN"},
     "upper": {"elements": UPPER_ELEMENTS, "pseudo": UPPER_PSEUDO, "repl": UPPER_REPL, "surface": "#", "grain": "GRAIN"},
+    # UCLCHEM-style upper-case symbols together with the Leeds surface prefix `G` and the third-body marker `M`: `MG` is magnesium
+    "upper-G": {"elements": UPPER_ELEMENTS, "pseudo": UPPER_PSEUDO + ["M"], "repl": UPPER_REPL, "surface": "G", "grain": "GRAIN"},
+    # isotopes as elements of their own: symbols that start with digits
+    "isotopes": {"elements": DEFAULT_ELEMENTS + ["13C", "18O", "15N"], "pseudo": DEFAULT_PSEUDO, "repl": {}, "surface": "#", "grain": "GRAIN"},
     # a user list of elements and *no* pseudo-elements: the default labels (o, p, m, CR, X, ...) are not configured
     "elements-only": {"elements": ["e", "H", "D", "He", "C", "O", "Si"], "pseudo": [], "repl": {}, "surface": "#", "grain": "GRAIN"},
 }
@@ -62,7 +66,7 @@ def gen_name(rng, cfgname):
     atoms = [e for e in cfg["elements"] if e.upper() not in ("E",)]
     kind = rng.random()
     if kind < 0.05:
-        sp = rng.choice(["e-", "E", "e", "E-"] if cfgname != "upper" else ["E", "E-"])
+        sp = rng.choice(["e-", "E", "e", "E-"] if not cfgname.startswith("upper") else ["E", "E-"])
         return sp, None
     if kind < 0.10:
         g = rng.choice(["", "0", "1", "2"])
@@ -84,7 +88,7 @@ def gen_name(rng, cfgname):
     body = label + "".join(f"{e}{c if c > 1 else ''}" for e, c in toks)
     charge = rng.choice([0, 0, 0, 1, 1, -1, 2, 4, -2])
     ice = rng.random() < 0.25
-    group = rng.choice(["", "", "2"]) if ice else ""
+    group = rng.choice(["", "", "2"]) if ice and not (label + toks[0][0])[0].isdigit() else ""   # "#213CO" would be ambiguous
     name = (cfg["surface"] + group if ice else "") + body + ("+" * charge if charge > 0 else "-" * (-charge))
     # ---- ground truth, valid only when no longer symbol straddles a token boundary
     symbols = cfg["elements"] + [p.replace("\\", "") for p in cfg["pseudo"]] + [cfg["surface"], cfg["grain"]]
@@ -123,7 +127,9 @@ def gen_name(rng, cfgname):
     renamed = (cfg["surface"] + group if ice else "") + label + "".join(f"{cfg['repl'].get(e, e)}{c if c > 1 else ''}" for e, c in toks) \
         + ("+" * charge if charge > 0 else "-" * (-charge))
     gas = renamed[len(cfg["surface"] + group):] if ice else renamed
-    mass = sum(MASS.get(e, 0) * c for e, c in counts.items())
+    # (mass numbers are claimed for the symbols of naunet's own periodic / isotope tables only: a user symbol such as 13C
+    #  has no mass naunet could know)
+    mass = sum(MASS.get(e, 0) * c for e, c in counts.items()) if all(e in MASS for e in counts) else None
     truth = {"name": renamed, "counts": counts, "charge": charge, "surface": ice, "gasname": gas, "mass": mass,
              "is_atom": (len(counts) == 1 and sum(counts.values()) == 1 and charge == 0 and not ice)}
     return name, truth
@@ -136,7 +142,7 @@ def gen_malformed(rng, cfgname):
         # labels and markers of the *default* pseudo-element list are not symbols of this configuration
         return rng.choice(["oH2", "pH2+", "mH2", "CRP", "HeX", "XH", "CRPHOT", "oH2D+", "H2m", "pD2"])
     bad = rng.choice(["x", "q", "?", "(", "z", "y", "_", "%"])
-    if cfgname == "upper":
+    if cfgname.startswith("upper"):
         bad = rng.choice(["x", "?", "(", "a", "he"])
     body = base.rstrip("+-")
     k = rng.randint(0, len(body))
@@ -181,7 +187,9 @@ def run_c08(argv):
         # fixed corpus: the examples of the property statement
         corpus = ["Si", "He", "SiO", "HeH+", "Mg+", "MgH", "Fe+", "FeH", "oH2D+", "#CO", "c-C3H2", "l-C3H", "H2*", "CO2", "NaCl", "SiS"] \
             if cfgname == "default" else (["GCO", "GH2O", "GRAIN0", "GCH4"] if cfgname == "default-G" else
-                                          (["HE+", "MGH", "SIO", "HCL", "#SIH4", "E-"] if cfgname == "upper" else ["SiO", "HeH+", "#CO", "D2"]))
+                                          (["HE+", "MGH", "SIO", "HCL", "#SIH4", "E-"] if cfgname == "upper" else
+                                           (["13CO", "#13CO", "H213CO", "C18O", "#15N2", "13C+"] if cfgname == "isotopes" else
+                                            (["MG", "MG+", "MGH", "GMG", "GSIO", "GHCL"] if cfgname == "upper-G" else ["SiO", "HeH+", "#CO", "D2"]))))
         names = corpus + names
         truths = [None] * len(corpus) + truths
         impl = [impl_species(cfgname, n) for n in names]
@@ -218,7 +226,7 @@ def run_c08(argv):
                 bad.append(("gas counterpart", r["gasname"], t["gasname"]))
             if r["name"] != t["name"]:
                 bad.append(("renamed", r["name"], t["name"]))
-            if abs(r["massnumber_raw"] - t["mass"]) > 1e-9:
+            if t["mass"] is not None and abs(r["massnumber_raw"] - t["mass"]) > 1e-9:
                 bad.append(("mass number", r["massnumber_raw"], t["mass"]))
             if r["is_atom"] != t["is_atom"]:
                 bad.append(("is_atom", r["is_atom"], t["is_atom"]))
@@ -266,6 +274,7 @@ NETS = {
     "labels": (["oH2", "pH2", "oH2D+", "pH2D+", "mD3+", "H", "D", "e-", "H2"], "default"),
     "ice": (["CO", "#CO", "H2O", "#H2O", "#CH4", "CH4", "H", "#H", "GRAIN0", "GRAIN-", "e-"], "default"),
     "electron-twice": (["e-", "E", "H+", "H", "He+", "He"], "default"),
+    "isotope-ice": (["CO", "13CO", "#CO", "#13CO", "C", "13C", "O", "18O", "C18O", "#C18O", "N2", "15N2", "#15N2", "e-"], "isotopes"),
     "electron-E": (["E", "H+", "H", "He+", "He", "H2", "H2+", "D", "HD"], "default"),          # the KROME spelling alone
     "electron-E-": (["E-", "H+", "H", "C+", "C", "CO"], "default"),
     "upper": (["HE", "HE+", "MG", "MG+", "SI", "SIO", "H", "E-", "CL", "HCL", "#SIO"], "upper"),
@@ -275,12 +284,19 @@ NETS = {
 }
 
 
+RENDER_REFUSED_OK = set()      # fixed networks whose rendering is refused on the unchanged tree (filled in below, with the reason)
+
+
 def build_net(spec_names, cfgname, rng):
     from naunet.network import Network
     from naunet.reactions import Reaction
     from naunet.reactiontype import ReactionType as RT
     cfg = CFGS[cfgname]
     configure(cfg)
+    from naunet import chemistrydata
+    chemistrydata.user_binding_energy.clear()
+    if cfgname == "isotopes":     # the table has no isotopic ices: the user supplies their binding energies
+        chemistrydata.update_binding_energy({"#13CO": 1150.0, "#C18O": 1150.0, "#15N2": 790.0})
     names = list(spec_names)
     # some species take part in no reaction and enter as required species - at construction, or assigned later, possibly
     # after the species list has already been looked at
@@ -343,6 +359,13 @@ def run_c09(argv):
                 render(net, b, path)
             except Exception as e:
                 chk.hist["render-refused:" + type(e).__name__] += 1
+                chk.hist[f"render-refused-net:{label.rstrip('0123456789')}"] += 1
+                if label in NETS and label not in RENDER_REFUSED_OK:
+                    # the fixed networks consist of well-formed, distinct species: refusing one of them is not "rejecting a
+                    # malformed name", it means two of its species could not be told apart or an identifier could not be formed
+                    chk.violation({"kind": "valid-network-refused", "net": label, "error": type(e).__name__},
+                                  f"rendering the well-formed network {label} raised {type(e).__name__}: {e}",
+                                  input={"network": label, "species": names})
                 break
             rd = Rendered(path, b)
             chk.count((label, b), nontrivial=len(names) >= 3)
@@ -468,6 +491,24 @@ def summary_check(chk, label, names, cfgname, ref_alias):
             len(summ["list_of_species"]) != len(idx) or summ["num_of_elements"] != int(mac["NELEMENTS"]):
         chk.violation({"kind": "artefacts-differ", "pair": "macros/summary"}, "project summary and index macros disagree",
                       input={"network": label, "summary_alias": list(summ["list_of_species_alias"])[:20], "macros": idx[:20]})
+        return
+    # slot by slot the two lists of the summary name the same species (notebooks label result columns with list_of_species)
+    from naunet.species import Species
+    configure(cfg)
+    by_alias = {}
+    for nm in names:
+        try:
+            sp = Species(nm)
+            by_alias[sp.alias] = sp.name
+        except Exception:
+            return
+    got = list(summ["list_of_species"])
+    want = [by_alias.get(a) for a in summ["list_of_species_alias"]]
+    if None not in want and [canon(x) for x in got] != [canon(x) for x in want]:
+        k = next(i for i, (g, w) in enumerate(zip(got, want)) if canon(g) != canon(w))
+        chk.violation({"kind": "artefacts-differ", "pair": "summary-names/summary-aliases"},
+                      f"[summary] slot {k}: list_of_species has {got[k]!r}, list_of_species_alias has {summ['list_of_species_alias'][k]!r} "
+                      f"(= {want[k]!r})", input={"network": label, "list_of_species": got[:20], "list_of_species_alias": list(summ["list_of_species_alias"])[:20]})
 
 
 def model_c09(chk, nets):
